@@ -79,6 +79,9 @@ var c09NumTable = map[string]c09Num{
 	"1k": {0, 1000}, "2k": {0, 2000}, "1.5k": {0, 1500}, "1000k": {0, 1e6}, "1M": {0, 1e6}, "2M": {0, 2e6}, "1G": {0, 1e9}, "1T": {0, 1e12},
 	"1Ki": {0, 1024}, "2Ki": {0, 2048}, "1Mi": {0, 1048576}, "1Gi": {0, 1073741824},
 	"4KiB": {0, 4096}, "1KiB": {0, 1024}, "2kB": {0, 2000}, "1MB": {0, 1e6},
+	// every documented SI and IEC prefix up to Y / Yi (added after a seeded change made Zi/Yi parse as 0)
+	"1P": {0, 1e15}, "1E": {0, 1e18}, "1Z": {0, 1e21}, "1Y": {0, 1e24}, "3YB": {0, 3e24},
+	"1Ti": {0, 1 << 40}, "1Pi": {0, 1 << 50}, "1Ei": {0, 1 << 60}, "1Zi": {0, 1180591620717411303424}, "2ZiB": {0, 2361183241434822606848}, "1Yi": {0, 1208925819614629174706176}, "3YiB": {0, 3626777458843887524118528},
 	"+Inf": {0, math.Inf(1)}, "Inf": {0, math.Inf(1)}, "-Inf": {0, math.Inf(-1)},
 	"NaN": {c09NaN, 0}, "nan": {c09NaN, 0},
 	"": {c09NonNumber, 0}, "abc": {c09NonNumber, 0}, "x": {c09NonNumber, 0}, "foo": {c09NonNumber, 0}, "zed": {c09NonNumber, 0}, "Q": {c09NonNumber, 0},
@@ -731,7 +734,7 @@ func c09Pool(order string, fixed []kit.B, nameSafe bool) []string {
 // Spellings the num order cannot separate (equal value, NaNs, non-numbers).
 var c09NumClusters = [][]string{
 	{"1", "1.0", "1e0"}, {"1000", "1e3", "1E3", "1k"}, {"1e6", "1M", "1000k", "1MB"}, {"1024", "1Ki", "1KiB"},
-	{"1048576", "1Mi"}, {"2k", "2kB"}, {"0.001", "1e-3"}, {"NaN", "nan"}, {"+Inf", "Inf"}, {"abc", "x", "foo", "zed", "Q"},
+	{"1048576", "1Mi"}, {"1Ei", "1Zi", "2ZiB", "1Yi", "3YiB", "1Z", "1Y", "3YB", "1E", "1P", "1Pi", "1Ti"}, {"2k", "2kB"}, {"0.001", "1e-3"}, {"NaN", "nan"}, {"+Inf", "Inf"}, {"abc", "x", "foo", "zed", "Q"},
 	{"9", "10", "100"}, {"-1", "-2.5", "-Inf"},
 }
 
